@@ -327,3 +327,7 @@ mod test {
         assert!(term_iter.next().is_none());
     }
 }
+
+#[cfg(kani)]
+#[path = "/verif/kani/internal.rs"]
+mod verif_kani;
